@@ -405,6 +405,9 @@ func opsKey(ops []c10Op) string {
 func c10PanicSite(w *zsim.World) string {
 	for _, l := range w.Trace() {
 		if i := strings.Index(l, "PANIC"); i >= 0 {
+			if strings.Contains(l, zsim.BudgetPanic) || strings.Contains(l, zsim.OpenPanic) {
+				return "unbounded-recursion-or-loop" // where the budget ran out says nothing
+			}
 			for _, ln := range strings.Split(l, "\n") {
 				ln = strings.TrimSpace(ln)
 				if strings.HasPrefix(ln, "github.com/DemoHn/Zn/") && !strings.Contains(ln, "znverif") {
@@ -577,8 +580,11 @@ func c10Body(t *zsim.Tape, w *zsim.World, d *zsim.Disk, sc *c10Scenario, out *hl
 	case 5:
 		req.ContentLength = 0
 	}
-	if t.Draw(2) == 1 {
-		req.Header.Set("Content-Type", "application/json")
+	// what the client says the body is: the header is text chosen by the client
+	if x := t.Draw(16); x > 0 {
+		req.Header.Set("Content-Type", []string{"application/json", "application/json", "application/json", "application/json; charset=utf-8",
+			"Application/JSON", "json", "text", "json; charset=utf-8", "application/", "/", "a/b/c", ";", "text/plain; charset", "application/vnd.api+json",
+			strings.Repeat("x", 5000) + "/json"}[x-1])
 	}
 	rec := httptest.NewRecorder()
 	var h http.Handler
